@@ -758,6 +758,13 @@ End FromNew.
 Lemma fixed_cc_total w : cc_total (fixed_cc w).
 Proof. intros c now len rtt. discriminate. Qed.
 
+Definition p1_cfg : vconfig :=
+  {| vc_incoming := false; vc_ipv4 := true; vc_link_mtu := 1500; vc_rx_buf := 1048576;
+     vc_tx_init := 32768; vc_tx_max := 1048576; vc_nagle := true; vc_max_retx := 5;
+     vc_inactivity := 10000000000; vc_wait_last_ack := true; vc_mtu_probe_max_retx := 1;
+     vc_isn := 100; vc_remote_seq := 1; vc_remote_conn_id := 7; vc_remote_wnd := 1048576;
+     vc_remote_ts := 5; vc_syn_sent := 0; vc_now0 := 1000000 |}.
+
 Definition p1_ops : list vop :=
   [VoPoll []; VoWrite (repeat 0 (Z.to_nat 3000)); VoPoll []; VoSetNow 2000000;
    VoDeliver {| m_hdr := {| ch_type := ST_STATE; ch_conn_id := 0; ch_ts := 10; ch_ts_diff := 0;
@@ -766,12 +773,7 @@ Definition p1_ops : list vop :=
    VoPoll [TPending]; VoShutdown; VoPoll []].
 
 Example p1_hyps_satisfiable :
-  cc_total (fixed_cc 100000) /\
-  vconfig_ok {| vc_incoming := false; vc_ipv4 := true; vc_link_mtu := 1500; vc_rx_buf := 1048576;
-                vc_tx_init := 32768; vc_tx_max := 1048576; vc_nagle := true; vc_max_retx := 5;
-                vc_inactivity := 10000000000; vc_wait_last_ack := true; vc_mtu_probe_max_retx := 1;
-                vc_isn := 100; vc_remote_seq := 1; vc_remote_conn_id := 7; vc_remote_wnd := 1048576;
-                vc_remote_ts := 5; vc_syn_sent := 0; vc_now0 := 1000000 |} = true /\
+  cc_total (fixed_cc 100000) /\ vconfig_ok p1_cfg = true /\
   Forall op_clock_ok p1_ops /\ Forall op_nolimit p1_ops /\ Forall op_script_legit p1_ops.
 Proof.
   split; [apply fixed_cc_total|]. split; [vm_compute; reflexivity|].
@@ -786,13 +788,6 @@ Fixpoint restarts {CC} (cci : cc_iface CC) (fuel : nat) (s : vsock CC) : nat :=
   | O => O
   | S f => match poll_body cci s with BrRestart s' => S (restarts cci f s') | _ => O end
   end.
-
-Definition p1_cfg : vconfig :=
-  {| vc_incoming := false; vc_ipv4 := true; vc_link_mtu := 1500; vc_rx_buf := 1048576;
-     vc_tx_init := 32768; vc_tx_max := 1048576; vc_nagle := true; vc_max_retx := 5;
-     vc_inactivity := 10000000000; vc_wait_last_ack := true; vc_mtu_probe_max_retx := 1;
-     vc_isn := 100; vc_remote_seq := 1; vc_remote_conn_id := 7; vc_remote_wnd := 1048576;
-     vc_remote_ts := 5; vc_syn_sent := 0; vc_now0 := 1000000 |}.
 
 Definition last_state_of (w : Z) (cfg : vconfig) (ops : list vop) : option (vsock unit) :=
   match vsock_new (fixed_cc w) (fun _ _ => tt) cfg with
